@@ -217,14 +217,17 @@ def work(arg):
                         viol("positions/moved", "a reported position did not move with its token: expected %r, got %r" % (mapped[:200], ob.err.decode("utf-8", "replace")[:200]),
                              rb.text, {"canonical_layout": ra.text})
                 # absolute check against the token map for pinned categories
-                if mode == "C18" and model_res is not None and model_res.error is not None and model_res.error.pinned:
+                if mode == "C18" and model_res is not None and model_res.error is not None:
                     d = judge.Diag(ob.err)
                     e = M.run(prog, rb).error
-                    if d.ok and e is not None and e.pos is not None:
+                    if d.ok and e is not None and e.pinned and e.pos is not None:
                         tally("pinned:" + e.kind.split(":")[0])
                         if d.pos != tuple(e.pos):
                             viol("positions/pinned/" + e.kind.split(":")[0], "%s reported at %s, the offending token is at %s" % (e.kind, d.pos, tuple(e.pos)), rb.text)
-                        if e.stack and [p for p, _ in d.stack] != [tuple(p) for p, _ in e.stack]:
+                    # every stack-trace line is the position of a call, whatever the category of the error itself
+                    if d.ok and e is not None and e.stack and all(p is not None for p, _ in e.stack):
+                        tally("stack_lines:" + ("pinned" if e.pinned else "other"))
+                        if [p for p, _ in d.stack] != [tuple(p) for p, _ in e.stack]:
                             viol("positions/stack", "stack-trace positions %s, the calls are at %s" % ([p for p, _ in d.stack], [tuple(p) for p, _ in e.stack]), rb.text)
     return res
 
